@@ -109,7 +109,8 @@ PROPERTIES["C06"] = {
 
 
 HAST_HARNESS = _h(("internal/zzverif/hast/zz_verif_c18.go", "harness/hast/zz_verif_c18.go"),
-                  ("internal/zzverif/hast/zz_verif_c07_merge.go", "harness/hast/zz_verif_c07_merge.go"))
+                  ("internal/zzverif/hast/zz_verif_c07_merge.go", "harness/hast/zz_verif_c07_merge.go"),
+                  ("internal/zzverif/hast/zz_verif_c16.go", "harness/hast/zz_verif_c16.go"))
 
 PROPERTIES["C07"] = {
     "level_text": "Bounded symbolic execution + SMT. (1) Non-mutation: every heap object reachable from the symbolic input schemas is frozen, then each language's real pass chain and "
@@ -161,4 +162,32 @@ PROPERTIES["C15"] = {
                   "transformation is about them); names over {Foo,foo,Bar}, fields over {a,A,b}; Nullable/Required symbolic. Reference semantics: DESIGN.md appendix A.",
     "bounds": {"schemas": "2 packages, 3 objects, main object T(1)", "parameters": "symbolic over the same case-sensitive alphabets plus absent names and an unloaded package"},
     "runs": [Run("compiler", ["./internal/ast/compiler"], COMPILER_HARNESS, C15_ENTRIES, "internal/ast/compiler", needs_leaf=True)],
+}
+
+
+PROPERTIES["C16"] = {
+    "level_text": "Bounded symbolic execution + SMT of ast.BuilderGenerator.FromAST on symbolic schemas (structs, aliases ref->struct and ref->ref, constants, references to "
+                  "constants in the other package, constant references, defaults, constraints; Required/Nullable symbolic) against a reference derivation written from the "
+                  "property statement: the set of builders, each constructor constant, each option (name, single argument, default, assignment path, constraints) compared field by field.",
+    "level_note": "Bounds: 2 packages x 3 objects, struct of <=2 fields over 6 field kinds, names over {S,A,K}. Inputs are assumed reference-closed and acyclic here "
+                  "(dangling references and cycles are C04's subject).",
+    "bounds": {"schemas": "2 packages, 6 objects, struct<=2 fields x 6 kinds", "leaves": "Required, Nullable, default, constraint op/arg, scalar kind, reference targets symbolic"},
+    "runs": [Run("hast", ["./internal/zzverif/hast"], HAST_HARNESS, ["VerifC16FromAST"], "internal/zzverif/hast", test_pkg_name="hast")],
+}
+
+
+VENEERS_HARNESS = _h(("internal/zzverif/hveneers/zz_verif_c17.go", "harness/hveneers/zz_verif_c17.go"))
+
+PROPERTIES["C17"] = {
+    "level_text": "Bounded symbolic execution + SMT of rewrite.Rewriter.ApplyTo with one option rule (11 actions) or one builder rule (5 rules) and a symbolic selector, on builders "
+                  "derived by the REAL BuilderGenerator.FromAST from schemas whose field kinds are forked (string/array/map/bool/ref-to-struct/anonymous struct/union) and whose "
+                  "flags are symbolic. Asserted on every path: every assignment path is a type-matching chain of existing fields; every argument an assignment (value, index, envelope, "
+                  "constraint) uses is declared by its option or the constructor; unselected builders/options are unchanged and in place; each rule's documented contract "
+                  "(omit removes, rename only renames, duplicate = identical copy incl. defaults and factories and no shared structure, array_to_append/map_to_index/unfold_boolean/"
+                  "struct_fields_as_arguments/options/disjunction_as_options still assign the same target).",
+    "level_note": "Bounds: one package, builders Bar/Foo/foo, Foo with 2 fields over 7 kinds; one rule per run (rule sequences are outside the quick bound); "
+                  "merge_into/compose/initialize/add_option/add_factory rules are not covered yet. Reference contracts: DESIGN.md appendix B.",
+    "bounds": {"builders": "3 (derived by FromAST), Foo: 2 fields x 7 kinds", "rules": "11 option actions + 5 builder rules, one at a time, selector names symbolic incl. case variants and absent names"},
+    "runs": [Run("veneers", ["./internal/zzverif/hveneers"], VENEERS_HARNESS, ["VerifC17OptionRule", "VerifC17BuilderRule"],
+                 "internal/zzverif/hveneers", test_pkg_name="hveneers", needs_leaf=True)],
 }
